@@ -58,3 +58,16 @@ CHECKS["C11"] = dict(
          "between; exports of global/local/undefined names checked in the ELF symbol table; 1-5000 labels with 6/30/254-character names "
          "(beyond one 32 KiB symbol pool), each referenced and exported, checked in the image, the ELF symbol table and -dump_symbols.",
     note="Trusts the scoping model in checks/C11.py and the ELF decoder; a use of a .set symbol before its first assignment is not posed.")
+
+CHECKS["C12"] = dict(
+    level="fault_enumeration", design_ref="DESIGN.md 4/C12",
+    technique="exhaustive single-point fault enumeration: every corruption operator at every line/token position of every seed program x output "
+              "configuration on the real assembler, invariant oracle status <=> diagnostics <=> output file",
+    text="For a valid seed program of each CPU with a comparison corpus (49) and 12 CPU-independent programs (directives, macros, defines, "
+         "conditionals, repeat, scopes, include, set/export, strings), every one of about 35 corruption operators (unknown mnemonic, undefined symbol, "
+         "huge number, token deletion, extra operand, unterminated quote/comment/macro/if/repeat, stray closers, malformed directives, missing "
+         "include, duplicate label, over-long tokens, the bad line inside .if/.else/macro/repeat/include) is applied at every line and token "
+         "position, for hex/bin/elf/srec with and without -l, with a stale output file planted; exit status 0 must coincide with no error "
+         "diagnostic and a fresh, complete output file, any failure must leave no file, and by-construction erroneous inputs must fail.",
+    note="A diagnostic is a stdout line matching \\b(Error|error)\\b; 'complete' means well-terminated for the type (contents are C03's question); "
+         "corruptions landing in untaken branches are judged for consistency only.")
